@@ -85,6 +85,7 @@ type Sim struct {
 	arrived   []*Task // parked since the last quiescent point, in arrival order (not yet sorted in)
 	locks     map[uintptr]*lockState
 	chanWait  map[uintptr][]*Task // tasks parked until a package-level buffered channel can serve them
+	condWait  map[uintptr][]*Task // tasks waiting on a modelled sync.Cond, in arrival (FIFO) order
 	LockWaits int                 // times a task had to wait for a modelled lock
 	pending   *Task
 	rootG     uint64
@@ -346,64 +347,138 @@ func (s *Sim) lockHook(site string, lock interface{}, write bool, acquire bool) 
 	}
 }
 
-var condType = reflect.TypeOf(sync.Cond{})
+// condOf returns the *sync.Cond behind a pointer (or pointer to pointer), or nil.
+func condOf(c interface{}) *sync.Cond {
+	switch v := c.(type) {
+	case *sync.Cond:
+		return v
+	case **sync.Cond:
+		if v != nil {
+			return *v
+		}
+	}
+	return nil
+}
 
-// condHook: a task entering sync.Cond.Wait gives up the condition's lock in
-// the model (the real Wait unlocks the real mutex) and holds it again when
-// Wait has returned (the real Wait has re-locked it by then).
-func (s *Sim) condHook(site string, c interface{}, before bool) {
+// condWaitHook performs a whole sync.Cond.Wait inside the simulator: the task
+// gives up the condition's lock (really and in the model), waits in the
+// simulator until a modelled Signal/Broadcast selects it (FIFO, as the real
+// Cond does), re-takes the lock and reports that the real Wait must be skipped.
+// Who is woken, and when it runs, are thereby scheduler decisions.
+func (s *Sim) condWaitHook(site string, c interface{}) bool {
 	g := goid()
 	if g == s.rootG {
-		return
+		return false
 	}
-	v := reflect.ValueOf(c)
-	for v.Kind() == reflect.Ptr && !v.IsNil() {
-		v = v.Elem()
+	cond := condOf(c)
+	if cond == nil || cond.L == nil {
+		return false // a WaitGroup, or something else with a Wait method
 	}
-	if v.Kind() != reflect.Struct || v.Type() != condType {
-		return // a WaitGroup or something else with a Wait method
-	}
-	l := v.FieldByName("L")
-	if !l.IsValid() || l.IsNil() {
-		return
-	}
-	lv := l.Elem()
+	lv := reflect.ValueOf(cond.L)
 	if lv.Kind() != reflect.Ptr {
-		return
+		return false
 	}
-	id := lv.Pointer()
+	lid := lv.Pointer()
+	cid := reflect.ValueOf(cond).Pointer()
 	s.mu.Lock()
-	defer s.mu.Unlock()
 	t := s.tasks[g]
 	if t == nil {
-		return
+		s.mu.Unlock()
+		return false
 	}
 	if s.locks == nil {
 		s.locks = map[uintptr]*lockState{}
 	}
-	ls := s.locks[id]
+	ls := s.locks[lid]
 	if ls == nil {
 		ls = &lockState{readers: map[*Task]int{}}
-		s.locks[id] = ls
+		s.locks[lid] = ls
 	}
 	if t.heldW == nil {
 		t.heldW = map[uintptr]int{}
 	}
-	if before {
-		if t.heldW[id] > 0 {
-			t.heldW[id]--
-			t.held--
+	// give the lock up
+	if t.heldW[lid] > 0 {
+		t.heldW[lid]--
+		t.held--
+	}
+	if ls.writer == t {
+		ls.writer = nil
+	}
+	s.arrived = append(s.arrived, ls.waiters...)
+	ls.waiters = nil
+	cond.L.Unlock()
+	// wait for a signal
+	if s.condWait == nil {
+		s.condWait = map[uintptr][]*Task{}
+	}
+	t.site = "cond-wait:" + site
+	s.condWait[cid] = append(s.condWait[cid], t)
+	s.mu.Unlock()
+	<-t.wake
+	if s.aborted.Load() {
+		abortRelock(cond.L)
+		runtime.Goexit()
+	}
+	// signalled and scheduled: take the lock again
+	s.mu.Lock()
+	for {
+		if ls.writer == nil && len(ls.readers) == 0 {
+			ls.writer = t
+			t.heldW[lid]++
+			t.held++
+			s.mu.Unlock()
+			cond.L.Lock()
+			return true
 		}
-		if ls.writer == t {
-			ls.writer = nil
+		if s.aborted.Load() {
+			s.mu.Unlock()
+			abortRelock(cond.L)
+			runtime.Goexit()
 		}
-		s.arrived = append(s.arrived, ls.waiters...)
-		ls.waiters = nil
+		t.site = "lock-wait:" + site
+		ls.waiters = append(ls.waiters, t)
+		s.mu.Unlock()
+		<-t.wake
+		if s.aborted.Load() {
+			abortRelock(cond.L)
+			runtime.Goexit()
+		}
+		s.mu.Lock()
+	}
+}
+
+// abortRelock: a task torn down while it has given up a condition's lock will
+// still run the caller's deferred Unlock; unlocking an unlocked mutex is a fatal
+// error, so the lock is taken back if it is free (and left alone otherwise).
+func abortRelock(l sync.Locker) {
+	if tl, ok := l.(interface{ TryLock() bool }); ok {
+		tl.TryLock()
+	}
+}
+
+func (s *Sim) condSignalHook(site string, c interface{}, all bool) {
+	g := goid()
+	if g == s.rootG {
 		return
 	}
-	ls.writer = t
-	t.heldW[id]++
-	t.held++
+	cond := condOf(c)
+	if cond == nil {
+		return
+	}
+	cid := reflect.ValueOf(cond).Pointer()
+	s.mu.Lock()
+	defer s.mu.Unlock()
+	q := s.condWait[cid]
+	if len(q) == 0 {
+		return
+	}
+	n := 1
+	if all {
+		n = len(q)
+	}
+	s.arrived = append(s.arrived, q[:n]...)
+	s.condWait[cid] = q[n:]
 }
 
 // chanHook keeps tasks from blocking for real on a package-level buffered
@@ -550,9 +625,10 @@ func (s *Sim) Run() {
 	simrt.PanicHook = s.panicHook
 	simrt.LockHook = s.lockHook
 	simrt.ChanHook = s.chanHook
-	simrt.CondHook = s.condHook
+	simrt.CondWaitHook = s.condWaitHook
+	simrt.CondSignalHook = s.condSignalHook
 	defer func() {
-		simrt.Hook, simrt.SpawnHook, simrt.PanicHook, simrt.LockHook, simrt.ChanHook, simrt.CondHook = nil, nil, nil, nil, nil, nil
+		simrt.Hook, simrt.SpawnHook, simrt.PanicHook, simrt.LockHook, simrt.ChanHook, simrt.CondWaitHook, simrt.CondSignalHook = nil, nil, nil, nil, nil, nil, nil
 	}()
 	s.strat.init(s.T)
 	s.Strategy = s.strat.name()
@@ -691,6 +767,10 @@ func (s *Sim) Run() {
 			ps = append(ps, ws...)
 			delete(s.chanWait, id)
 		}
+		for id, ws := range s.condWait {
+			ps = append(ps, ws...)
+			delete(s.condWait, id)
+		}
 		s.mu.Unlock()
 		for _, t := range ps {
 			t.wake <- struct{}{}
@@ -793,6 +873,9 @@ func StartStallWatch(limit time.Duration, onStall func(StallInfo)) {
 					n += len(ls.waiters)
 				}
 				for _, ws := range s.chanWait {
+					n += len(ws)
+				}
+				for _, ws := range s.condWait {
 					n += len(ws)
 				}
 				done := true
